@@ -1,4 +1,5 @@
 import QV.C27.Lemmas
+import QV.C27.Semantics
 /-
 C27 — Reported memory accesses match each instruction's semantics.
 
@@ -335,5 +336,232 @@ example : Reads sigsFG (.calibrationDefinition [] [.circuitDefinition [.gate [.u
     (.body (j := .gate [.un (.addr "a")]) (by simp [bodyOf]) (.expr (e := .un (.addr "a")) (by simp [ownExprs]) (.un .addr)))
 example : ¬ Resolvable sigsFG (.circuitDefinition [.halt, .call "h" []]) := by
   rw [← resolvableB_iff]; decide
+
+/-! ### semantic justification of the specification's role table
+
+`Reads / Writes / Captures` are not only "my reading": against the executable semantics of
+Semantics.lean (arbitrary operator interpretations, arbitrary readout function),
+* an instruction changes only cells of regions it `Writes` or `Captures` (frame property);
+* what it does — its observable action and every cell it changes — depends only on the contents of
+  the regions it `Reads` (non-interference);
+hence, with `C27_memoryAccesses_correct`, the same holds for the sets the handler REPORTS
+(`C27_sem_reported_sets_sound`): this is exactly what a scheduler that reorders instructions with
+disjoint accesses relies on. -/
+
+open Sem in
+/-- an expression's value depends only on the regions occurring in it -/
+theorem C27_sem_eval (e : Ex) (m m' : Mem) (h : AgreeOn (Occurs e.erase) m m') : e.eval m = e.eval m' := by
+  induction e with
+  | addr r => exact h r.region .addr r.index
+  | const v => rfl
+  | un f e ih =>
+    simp only [Ex.eval]
+    rw [ih (fun r hr k => h r (.un hr) k)]
+  | bin f l x ihl ihx =>
+    simp only [Ex.eval]
+    rw [ihl (fun r hr k => h r (.binL hr) k), ihx (fun r hr k => h r (.binR hr) k)]
+
+open Sem in
+private theorem evalAll_congr (ps : List Ex) (m m' : Mem)
+    (h : ∀ r, (∃ e, e ∈ ps.map Ex.erase ∧ Occurs e r) → ∀ k, m r k = m' r k) :
+    ps.map (Ex.eval m) = ps.map (Ex.eval m') := by
+  apply List.map_congr_left
+  intro p hp
+  exact C27_sem_eval p m m' (fun r hr k => h r ⟨p.erase, List.mem_map.2 ⟨p, hp, rfl⟩, hr⟩ k)
+
+namespace Sem
+/-- every cell is either equal in `n`,`n'` or untouched relative to the bases `m`,`m'` -/
+def SameOrUntouched (m m' n n' : Mem) : Prop := ∀ r k, n r k = n' r k ∨ (n r k = m r k ∧ n' r k = m' r k)
+
+theorem rel_refl (m m' : Mem) : SameOrUntouched m m' m m' := fun _ _ => Or.inr ⟨rfl, rfl⟩
+
+theorem rel_upd {m m' n n' : Mem} (h : SameOrUntouched m m' n n') (c : Ref) {v v' : Val} (hv : v = v') :
+    SameOrUntouched m m' (upd n c v) (upd n' c v') := by
+  intro r k
+  unfold upd
+  by_cases hc : r = c.region ∧ k = c.index
+  · simp [hc, hv]
+  · simp only [hc, if_false]; exact h r k
+end Sem
+
+open Sem in
+/-- **frame property**: a region that the instruction neither `Writes` nor `Captures` is left unchanged,
+whatever the operators and the readout are. -/
+theorem C27_sem_frame (sigs : Sigs) (i : XInstr) (readout : List Val → Val) (m : Mem) (r : Region)
+    (hw : ¬ Writes sigs i.erase r) (hc : ¬ Captures i.erase r) (k : Nat) :
+    i.exec readout m r k = m r k := by
+  rw [← mem_specWrites, specWrites_eq] at hw
+  rw [← mem_specCaptures, specCaptures_eq] at hc
+  cases i <;>
+    simp [XInstr.erase, assignsOperandL, receivesOperandL, bodyOf, specWritesAll, specCapturesAll] at hw hc <;>
+    simp [XInstr.exec, upd] <;> try (intro h; simp_all)
+  case exchange a b => simp [hw.1, hw.2]
+  case measurement t =>
+    cases t with
+    | none => simp [XInstr.exec]
+    | some t =>
+      simp only [XInstr.exec, upd]
+      have : r ≠ t.region := by simpa [eq_comm] using hc
+      simp [this]
+
+open Sem in
+/-- **non-interference**: if two memories agree on every region the instruction `Reads`, the
+instruction's observable action is the same in both, and every cell ends up either with the same
+content in both or untouched in both — whatever the operators and the readout are. -/
+theorem C27_sem_noninterference (sigs : Sigs) (i : XInstr) (readout : List Val → Val) (m m' : Mem)
+    (h : AgreeOn (Reads sigs i.erase) m m') :
+    i.observe m = i.observe m' ∧ SameOrUntouched m m' (i.exec readout m) (i.exec readout m') := by
+  have key : ∀ r, r ∈ specReads sigs i.erase → ∀ k, m r k = m' r k :=
+    fun r hr k => h r ((mem_specReads sigs _ r).1 hr) k
+  have opv : ∀ (s : Operand), (∀ r, s.erase = some r → ∀ k, m r k = m' r k) → s.val m = s.val m' := by
+    intro s hs
+    cases s with
+    | lit v => rfl
+    | ref x => exact hs x.region rfl x.index
+  cases i with
+  | arithmetic op d s =>
+    refine ⟨rfl, rel_upd (rel_refl _ _) d ?_⟩
+    rw [key d.region (by simp [specReads_eq, XInstr.erase, consultsOperandL]),
+      opv s (fun r hr => key r (by simp [specReads_eq, XInstr.erase, consultsOperandL, hr]))]
+  | binaryLogic op d s =>
+    refine ⟨rfl, rel_upd (rel_refl _ _) d ?_⟩
+    rw [key d.region (by simp [specReads_eq, XInstr.erase, consultsOperandL]),
+      opv s (fun r hr => key r (by simp [specReads_eq, XInstr.erase, consultsOperandL, hr]))]
+  | unaryLogic op x =>
+    refine ⟨rfl, rel_upd (rel_refl _ _) x ?_⟩
+    rw [key x.region (by simp [specReads_eq, XInstr.erase, consultsOperandL])]
+  | move d s =>
+    refine ⟨rfl, rel_upd (rel_refl _ _) d ?_⟩
+    exact opv s (fun r hr => key r (by simp [specReads_eq, XInstr.erase, consultsOperandL, hr]))
+  | convert conv d s =>
+    refine ⟨rfl, rel_upd (rel_refl _ _) d ?_⟩
+    rw [key s.region (by simp [specReads_eq, XInstr.erase, consultsOperandL])]
+  | exchange a b =>
+    refine ⟨rfl, rel_upd (rel_upd (rel_refl _ _) a ?_) b ?_⟩
+    · exact key b.region (by simp [specReads_eq, XInstr.erase, consultsOperandL]) _
+    · exact key a.region (by simp [specReads_eq, XInstr.erase, consultsOperandL]) _
+  | comparison op d l x =>
+    refine ⟨rfl, rel_upd (rel_refl _ _) d ?_⟩
+    rw [key l.region (by simp [specReads_eq, XInstr.erase, consultsOperandL]),
+      opv x (fun r hr => key r (by simp [specReads_eq, XInstr.erase, consultsOperandL, hr]))]
+  | load d s o =>
+    refine ⟨rfl, rel_upd (rel_refl _ _) d ?_⟩
+    rw [key o.region (by simp [specReads_eq, XInstr.erase, consultsOperandL]),
+      key s (by simp [specReads_eq, XInstr.erase, consultsOperandL])]
+  | store d o s =>
+    refine ⟨rfl, ?_⟩
+    simp only [XInstr.exec]
+    rw [key o.region (by simp [specReads_eq, XInstr.erase, consultsOperandL])]
+    exact rel_upd (rel_refl _ _) _
+      (opv s (fun r hr => key r (by simp [specReads_eq, XInstr.erase, consultsOperandL, hr])))
+  | measurement t =>
+    cases t with
+    | none => exact ⟨rfl, rel_refl _ _⟩
+    | some t => exact ⟨rfl, rel_upd (rel_refl _ _) t rfl⟩
+  | capture t ps =>
+    have hps : ps.map (Ex.eval m) = ps.map (Ex.eval m') :=
+      evalAll_congr ps m m' (fun r ⟨e, he, ho⟩ => key r (by
+        rw [specReads_eq, mem_exprRegionsAll]; exact Or.inr (Or.inl ⟨e, by simpa [XInstr.erase, ownExprs] using he, ho⟩)))
+    refine ⟨hps, ?_⟩
+    simp only [XInstr.exec, hps]
+    exact rel_upd (rel_refl _ _) t rfl
+  | rawCapture t d =>
+    have hd : d.eval m = d.eval m' :=
+      C27_sem_eval d m m' (fun r hr => key r (by
+        rw [specReads_eq, mem_exprRegionsAll]; exact Or.inr (Or.inl ⟨d.erase, by simp [XInstr.erase, ownExprs], hr⟩)))
+    refine ⟨by simp [XInstr.observe, hd], ?_⟩
+    simp only [XInstr.exec, hd]
+    exact rel_upd (rel_refl _ _) t rfl
+  | jumpWhen c =>
+    refine ⟨?_, rel_refl _ _⟩
+    simp only [XInstr.observe]
+    rw [key c.region (by simp [specReads_eq, XInstr.erase, consultsOperandL])]
+  | jumpUnless c =>
+    refine ⟨?_, rel_refl _ _⟩
+    simp only [XInstr.observe]
+    rw [key c.region (by simp [specReads_eq, XInstr.erase, consultsOperandL])]
+  | pulse ps =>
+    exact ⟨evalAll_congr ps m m' (fun r ⟨e, he, ho⟩ => key r (by
+      rw [specReads_eq, mem_exprRegionsAll]; exact Or.inr (Or.inl ⟨e, by simpa [XInstr.erase, ownExprs] using he, ho⟩))),
+      rel_refl _ _⟩
+  | gate ps =>
+    exact ⟨evalAll_congr ps m m' (fun r ⟨e, he, ho⟩ => key r (by
+      rw [specReads_eq, mem_exprRegionsAll]; exact Or.inr (Or.inl ⟨e, by simpa [XInstr.erase, ownExprs] using he, ho⟩))),
+      rel_refl _ _⟩
+  | delay e | setFrequency e | setPhase e | setScale e | shiftFrequency e | shiftPhase e =>
+    have hd : e.eval m = e.eval m' :=
+      C27_sem_eval e m m' (fun r hr => key r (by
+        rw [specReads_eq, mem_exprRegionsAll]; exact Or.inr (Or.inl ⟨e.erase, by simp [XInstr.erase, ownExprs], hr⟩)))
+    exact ⟨by simp [XInstr.observe, hd], rel_refl _ _⟩
+
+open Sem in
+/-- the same two guarantees for the sets the handler REPORTS: with `a = memory_accesses(i)`,
+a region outside `a.writes ∪ a.captures` is unchanged, and memories agreeing on `a.reads` give the same
+observable action and the same / untouched cells. -/
+theorem C27_sem_reported_sets_sound (sigs : Sigs) (i : XInstr) (readout : List Val → Val) (a : Accesses)
+    (ha : memoryAccesses sigs i.erase = .ok a) :
+    (∀ m r, r ∉ a.writes → r ∉ a.captures → ∀ k, i.exec readout m r k = m r k) ∧
+    (∀ m m', (∀ r, r ∈ a.reads → ∀ k, m r k = m' r k) →
+      i.observe m = i.observe m' ∧ SameOrUntouched m m' (i.exec readout m) (i.exec readout m')) := by
+  have hc := C27_memoryAccesses_correct sigs i.erase
+  rw [ha] at hc
+  obtain ⟨_, hr, hw, hcap⟩ := hc
+  constructor
+  · intro m r h1 h2 k
+    exact C27_sem_frame sigs i readout m r (fun h => h1 ((hw r).2 h)) (fun h => h2 ((hcap r).2 h)) k
+  · intro m m' h
+    exact C27_sem_noninterference sigs i readout m m' (fun r hr' k => h r ((hr r).2 hr') k)
+
+/-! ### the expression clause is tight: every occurring region can matter -/
+
+namespace Sem
+/-- an executable expression of shape `e`: indices 0, unary operators the identity, binary `+` -/
+def liftE : E → Ex
+  | .addr r => .addr ⟨r, 0⟩
+  | .leaf => .const 0
+  | .un e => .un id (liftE e)
+  | .bin l r => .bin (· + ·) (liftE l) (liftE r)
+
+/-- number of `Address` leaves of region `r` -/
+def count (r : Region) : E → Nat
+  | .addr x => if x = r then 1 else 0
+  | .leaf => 0
+  | .un e => count r e
+  | .bin l x => count r l + count r x
+end Sem
+
+open Sem in
+private theorem liftE_erase (e : E) : (liftE e).erase = e := by
+  induction e <;> simp_all [liftE, Ex.erase]
+
+open Sem in
+private theorem eval_liftE (e : E) (r : Region) :
+    (liftE e).eval (fun _ _ => 0) = 0 ∧
+    (liftE e).eval (fun reg _ => if reg = r then 1 else 0) = (count r e : Int) := by
+  induction e with
+  | addr x => by_cases h : x = r <;> simp [liftE, Ex.eval, count, h]
+  | leaf => simp [liftE, Ex.eval, count]
+  | un e ih => simpa [liftE, Ex.eval, count] using ih
+  | bin l x ihl ihx => simp [liftE, Ex.eval, count, ihl.1, ihl.2, ihx.1, ihx.2]
+
+open Sem in
+private theorem count_pos (e : E) (r : Region) (h : Occurs e r) : 0 < count r e := by
+  induction h with
+  | addr => simp [count]
+  | un _ ih => simpa [count] using ih
+  | binL _ ih => simp only [count]; omega
+  | binR _ ih => simp only [count]; omega
+
+open Sem in
+/-- **tightness of the expression clause**: for every expression shape and every region occurring in
+it there is an executable expression of that shape and two memories that differ ONLY in that region on
+which it evaluates differently — so no region reported through an expression is superfluous. -/
+theorem C27_sem_eval_tight (e : E) (r : Region) (h : Occurs e r) :
+    ∃ (x : Ex) (m m' : Mem), x.erase = e ∧ (∀ r', r' ≠ r → ∀ k, m r' k = m' r' k) ∧ x.eval m ≠ x.eval m' := by
+  refine ⟨liftE e, fun _ _ => 0, fun reg _ => if reg = r then 1 else 0, liftE_erase e, ?_, ?_⟩
+  · intro r' hr k; simp [hr]
+  · rw [(eval_liftE e r).1, (eval_liftE e r).2]
+    have := count_pos e r h
+    omega
 
 end QV.C27
